@@ -32,6 +32,7 @@ func runC13(c *Ctx) {
 	c13SingleCommit(c)
 	c13ReadOnlyIndexScan(c)
 	indexEntryName(c, "R3")
+	noFetchIncludeIn(c, "R1", "fsck examines every object except those under lfs.fetchexclude: with lfs.fetchinclude set, corrupt objects outside the include patterns are neither reported nor moved aside", "fsckCommand", "doFsckObjects", "doFsckPointers")
 	treeListingsCoverWholeTree(c, "R5")
 	attrFilterKeepsOptOuts(c, "R4")
 	fp := p.Fn("commands", "fsckPointer")
